@@ -549,6 +549,14 @@ impl World {
         let t = self.now;
         let bus = self.bus.clone();
         let s = &mut self.stations[i];
+        if s.ever_online {
+            if let Some(n) = s.cfg.rejoin_keep_apps {
+                if usize::from(n) < s.apps.len() {
+                    s.apps.truncate(usize::from(n));
+                    self.stats.inc("user.application_list_shortened_while_offline");
+                }
+            }
+        }
         let mut phy = HarnessPhy::new(bus, s.node, t);
         phy.tx_done = match s.cfg.tx_done {
             TxDoneCfg::Exact => TxDone::Exact,
@@ -732,7 +740,7 @@ impl World {
                 let delay = self.faults[k].fault.delay_us;
                 let wire = matches!(
                     kind,
-                    FaultKind::Drop | FaultKind::RxDrop { .. } | FaultKind::BitFlip { .. } | FaultKind::Subst { .. } | FaultKind::Truncate { .. } | FaultKind::Dup { .. } | FaultKind::Collide { .. }
+                    FaultKind::LostWithStraySc | FaultKind::Drop | FaultKind::RxDrop { .. } | FaultKind::BitFlip { .. } | FaultKind::Subst { .. } | FaultKind::Truncate { .. } | FaultKind::Dup { .. } | FaultKind::Collide { .. }
                 );
                 if delay > 0 && !wire {
                     self.faults[k].armed = true;
@@ -867,6 +875,17 @@ impl World {
                     if self.apply_wire_fault(idx, kind) {
                         self.fired_wire.push(FiredWire { tx: idx, kind: kind.clone() });
                     }
+                }
+            }
+            FaultKind::LostWithStraySc => {
+                if let Some(idx) = tx {
+                    if self.apply_wire_fault(idx, &FaultKind::Drop) {
+                        self.fired_wire.push(FiredWire { tx: idx, kind: FaultKind::Drop });
+                    }
+                    let end = self.bus.borrow().txs[idx].end();
+                    let node = self.noise_node;
+                    self.push(end + 14 * crate::bus::BIT, 0, Ev::StubSend { node, bytes: vec![0xE5], noise: true });
+                    self.stats.inc("fault.lost_with_stray_sc");
                 }
             }
             FaultKind::Collide { after_chars, bytes } => {
